@@ -582,7 +582,7 @@ class Interp:
                 if layer.kind == "between" and loopish(layer):
                     # the bindings captured around a fill (inside a loop in the component body) form one
                     # layer, which is then forwarded as "the loop layer": its other names are not predicted
-                    fw = {k: (v if k == "forloop" else WILD) for k, v in layer.vars.items()}
+                    fw = {k: (v if k == "forloop" and isinstance(v, dict) else WILD) for k, v in layer.vars.items()}
                     tenv.append(Layer(fw, "forwarded"))
                     break
         else:
@@ -614,7 +614,7 @@ class Interp:
             if f.data_var:
                 alias[f.data_var] = data
             if f.dflt_var:
-                alias[f.dflt_var] = SlotRefModel(self, n, env, owner, prov, parent, [a for a in (f.data_var, f.dflt_var) if a] + [k_ for k_ in f.between if k_ != "forloop"])
+                alias[f.dflt_var] = SlotRefModel(self, n, env, owner, prov, parent, [a for a in (f.data_var, f.dflt_var) if a] + list(f.between))
             between = Layer(dict(f.between), "between")
             if self.mode == "isolated":
                 # lexical scoping: bindings around the fill ({% for %} / {% with %} in the component body) are the
@@ -622,7 +622,8 @@ class Interp:
                 fenv = list(f.env_at_tag) + [between]
                 leaked = [k_ for (li_, names_) in self.leaks if li_ is inst for k_ in names_]
                 if leaked:
-                    fenv.append(Layer({k_: WILD2 for k_ in leaked}, "aliaswild"))
+                    # (a leaked layer that carries loop state is also what gets forwarded as "the loop layer")
+                    fenv.append(Layer({k_: WILD2 for k_ in leaked}, "between" if "forloop" in leaked else "aliaswild"))
             else:
                 fenv = list(env)
                 idx = None
